@@ -192,11 +192,11 @@ Definition modutf7_decode (b : bytes) : result (list N) := dec None b [].
 
 (* ------------------------------------------------------------- Mailbox *)
 Definition INBOX : list N := [73; 78; 66; 79; 88].
-(* str.upper() == 'INBOX': besides the ASCII letters, U+0131 upper-cases to I *)
+(* mailbox.isascii() and mailbox.upper() == 'INBOX' *)
 Definition is_inbox_str (s : list N) : bool :=
   match s with
   | [a; b; c; d; e] =>
-    ((a =? 73) || (a =? 105) || (a =? 305)) && ((b =? 78) || (b =? 110)) &&
+    ((a =? 73) || (a =? 105)) && ((b =? 78) || (b =? 110)) &&
     ((c =? 66) || (c =? 98)) && ((d =? 79) || (d =? 111)) && ((e =? 88) || (e =? 120))
   | _ => false
   end.
